@@ -441,7 +441,7 @@ class Optic:
             rays.i = rays.i * scalar_intensity
 
         # update ray intensity
-        self.surface_group.intensity[-1, :] = rays.i
+        self.surface_group.surfaces[-1].intensity = np.copy(rays.i)
 
         return rays
 
@@ -474,7 +474,7 @@ class Optic:
         rays = self.surface_group.trace(rays)
 
         # update intensity
-        self.surface_group.intensity[-1, :] = rays.i
+        self.surface_group.surfaces[-1].intensity = np.copy(rays.i)
 
         return rays
 
